@@ -419,8 +419,8 @@ func c12GenPred(rng *rand.Rand, row map[string]string) (string, []string, string
 var c12Opaque = []string{
 	"x > 20 + 5", "not (x > 5)", "!(x > 5)", "x in [1, 5]", "\"abc\" == y", "y == \"abc\"", "5 < x", "x > 5 and y < 3", "x > 5 or y < 3",
 	"x == nil", "x != nil", "x > 1e3", "x > 0x10", "x > 1_000", "(x) > 5", "x > 5 && (y < 3)", "x > .5", "x >= 5 == true", "x > 5 ? true : false",
-	"nil == 1", "nil != 1", "nil == 'a'", "nil > 1", "nil == 1 && x > 0", "x > 0 || nil != 1", "x > y", "x == 'a' + 'b'", "x matches '^a'", "x contains 'a'",
-	"x startsWith 'a'", "like_match(y, 'a%')", "is_null(x)", "x ?? 1 > 0", "x > -\t5", "x > - 5", "x >= +5", "len(y) > 1", "true", "true && x > 1", "x > 1 && true",
+	"nil == 1", "nil != 1", "nil == 'a'", "nil == 1 && x > 0", "x > 0 || nil != 1", "x > y", "x == 'a' + 'b'", "x matches '^a'", "x contains 'a'",
+	"x startsWith 'a'", "like_match(y, 'a%')", "is_null(x)", "x > -\t5", "x > - 5", "x >= +5", "len(y) > 1", "true", "true && x > 1", "x > 1 && true",
 	"x==5&&y=='a'||z<1", "x ==5 && y< 'b' && ! (z>1)", "it > 1", "x > 1 && x < 10 && x != 5 && x != 6 && x != 7",
 }
 
@@ -482,8 +482,13 @@ func c12GenSQLPred(rng *rand.Rand, row map[string]string) []string {
 					continue
 				}
 			}
-			if c.lit.ast == "i:9223372036854775808" || strings.HasPrefix(c.lit.text, "-") {
+			if strings.HasPrefix(c.lit.text, "-") {
 				continue
+			}
+			if strings.HasPrefix(c.lit.ast, "i:") {
+				if _, err := strconv.ParseInt(c.lit.ast[2:], 10, 64); err != nil {
+					continue // does not compile
+				}
 			}
 			c.field = c12Fields[rng.Intn(3)]
 			return c.ast()
